@@ -2004,7 +2004,8 @@ func (c *Ctx) guardedSubRule(rule string, fns []*ssa.Function, reasons map[strin
 				if _, isK := constInt(stripConv(sub.X)); isK {
 					continue // k - x: a bound computed from a constant; T16 looks at decoded x
 				}
-				if !isUnsigned(sub.Type()) && len(indexUses(sub)) == 0 {
+				allSinks := countSinks(sub, false, 0, map[ssa.Value]bool{})
+				if !isUnsigned(sub.Type()) && len(indexUses(sub)) == 0 && len(allSinks) == 0 {
 					continue
 				}
 				n++
@@ -2019,7 +2020,11 @@ func (c *Ctx) guardedSubRule(rule string, fns []*ssa.Function, reasons map[strin
 				// stands behind "the difference is not negative"
 				if !okSub && !isUnsigned(sub.Type()) {
 					uses := indexUses(sub)
-					all := len(uses) > 0
+					all := len(uses) > 0 || len(allSinks) > 0
+					// a repeat count / allocation size the difference flows into is reached only through a clamp
+					if len(countSinks(sub, true, 0, map[ssa.Value]bool{})) > 0 {
+						all = false
+					}
 					for _, u := range uses {
 						nonNeg := false
 						for _, cf := range dominatingConds(u.At.Block()) {
@@ -2104,4 +2109,74 @@ func sameQuietLen(a, b *ssa.Call) bool {
 		}
 	}
 	return true
+}
+
+
+// countSinks: the calls that take v — or a value computed from it by adding, subtracting or multiplying constants and
+// other values, converting, or merging in a φ — as a count that must not be negative: strings.Repeat / bytes.Repeat
+// (panic) and make (panic). With clamped=true, a flow is dropped where the value is known non-negative: behind a
+// dominating test, or on the φ edge of a clamp (`if x < 0 { x = 0 }`).
+func countSinks(v ssa.Value, clamped bool, depth int, seen map[ssa.Value]bool) []ssa.Instruction {
+	if depth > 6 || seen[v] {
+		return nil
+	}
+	seen[v] = true
+	nonNegAt := func(b *ssa.BasicBlock, extra []condFact) bool {
+		for _, cf := range append(append([]condFact{}, dominatingConds(b)...), extra...) {
+			if op, other, ok := relFact(cf, func(x ssa.Value) bool { return x == v }); ok {
+				if k, isK := constInt(stripConv(other)); isK && ((op == token.GEQ && k >= 0) || (op == token.GTR && k >= -1)) {
+					return true
+				}
+			}
+		}
+		return false
+	}
+	var out []ssa.Instruction
+	for _, r := range nonDebugRefs(v) {
+		if clamped && r.Block() != nil && nonNegAt(r.Block(), nil) {
+			continue
+		}
+		switch x := r.(type) {
+		case *ssa.BinOp:
+			switch x.Op {
+			case token.ADD, token.MUL:
+				out = append(out, countSinks(x, clamped, depth+1, seen)...)
+			case token.SUB:
+				if x.X == v {
+					out = append(out, countSinks(x, clamped, depth+1, seen)...)
+				}
+			}
+		case *ssa.Convert:
+			out = append(out, countSinks(x, clamped, depth+1, seen)...)
+		case *ssa.ChangeType:
+			out = append(out, countSinks(x, clamped, depth+1, seen)...)
+		case *ssa.Phi:
+			safe := true
+			for i, e := range x.Edges {
+				if e != v || i >= len(x.Block().Preds) {
+					continue
+				}
+				pred := x.Block().Preds[i]
+				var edge []condFact
+				if iff, ok := pred.Instrs[len(pred.Instrs)-1].(*ssa.If); ok && len(pred.Succs) == 2 {
+					edge = condLeaves(iff.Cond, pred.Succs[0] == x.Block())
+				}
+				if !clamped || !nonNegAt(pred, edge) {
+					safe = false
+				}
+			}
+			if !safe {
+				out = append(out, countSinks(x, clamped, depth+1, seen)...)
+			}
+		case *ssa.Call:
+			if g := x.Call.StaticCallee(); g != nil && g.Pkg != nil && g.Name() == "Repeat" && (g.Pkg.Pkg.Path() == "strings" || g.Pkg.Pkg.Path() == "bytes") && len(x.Call.Args) == 2 && x.Call.Args[1] == v {
+				out = append(out, x)
+			}
+		case *ssa.MakeSlice:
+			if x.Len == v || x.Cap == v {
+				out = append(out, x)
+			}
+		}
+	}
+	return out
 }
